@@ -41,6 +41,13 @@ def unit(name):
 @st.composite
 def cases(draw, max_rows=40):
     law = draw(gen.laws(draw(st.sampled_from([3, 8, max_rows]))))
+    # "covers 0.55 micron" includes tables that START or END exactly at V (e.g. a V..L law)
+    vend = draw(st.sampled_from([None, None, None, None, 'first', 'last']))
+    if vend is not None:
+        keep = [(w, c) for w, c in zip(law['wav'], law['chi']) if (w > 0.55 * 1.0005 if vend == 'first' else w < 0.55 / 1.0005)]
+        keep = ([(0.55, law['chi'][0])] + keep) if vend == 'first' else (keep + [(0.55, law['chi'][-1])])
+        if len(keep) >= 2:
+            law = {'wav': [w for w, _ in keep], 'chi': [c for _, c in keep]}
     wav = law['wav']
     qs = []
     for _ in range(draw(st.integers(1, 12))):
@@ -63,17 +70,25 @@ def cases(draw, max_rows=40):
     cc = draw(st.integers(0, ncol - 1).filter(lambda v: v != cw)) if ncol > 2 else 1 - cw
     return {'law': law, 'queries': qs, 'query_unit': draw(st.sampled_from(UNITS)),
             'table_wav_unit': draw(st.sampled_from(UNITS)), 'table_chi_unit': draw(st.sampled_from(['cm2/g', 'm2/kg'])),
+            # how the table is expressed in its unit: converted by astropy, or typed in that unit (plain decimal factor)
+            'table_factor': draw(st.sampled_from(['astropy', 'plain'])),
             'scale': draw(gen.logfloat(1e-6, 1e6)), 'file_cols': ncol, 'file_wav_col': cw, 'file_chi_col': cc,
             'file_wav_unit': draw(st.sampled_from(['um', 'nm', 'AA'])), 'file_chi_unit': draw(st.sampled_from(['cm2/g', 'm2/kg']))}
 
 
-def make_law(wav_um, chi_cgs, wav_unit, chi_unit):
+PLAIN = {'um': 1., 'nm': 1e3, 'cm': 1e-4, 'm': 1e-6, 'AA': 1e4}
+
+
+def make_law(wav_um, chi_cgs, wav_unit, chi_unit, factor='astropy'):
     from astropy import units as u
     from sedfitter.extinction import Extinction
     e = Extinction()
     w = np.array(wav_um) * u.micron
     c = np.array(chi_cgs) * (u.cm ** 2 / u.g)
-    e.wav = w if wav_unit == 'um' else w.to(unit(wav_unit))
+    if factor == 'plain' and wav_unit != 'um':
+        e.wav = np.array([x * PLAIN[wav_unit] for x in wav_um]) * unit(wav_unit)
+    else:
+        e.wav = w if wav_unit == 'um' else w.to(unit(wav_unit))
     e.chi = c if chi_unit == 'cm2/g' else c.to(u.m ** 2 / u.kg)
     return e
 
@@ -166,7 +181,10 @@ def run_case(case, ctx):
     check_values(query(base, case['query_unit']), want, qs, ends, case['query_unit'] == 'um',
                  'queries in %s' % case['query_unit'], 'c14:query_unit', law)
     # 3. table units and scale constant
-    other = make_law(wav, [c * case['scale'] for c in chi], case['table_wav_unit'], case['table_chi_unit'])
+    other = make_law(wav, [c * case['scale'] for c in chi], case['table_wav_unit'], case['table_chi_unit'],
+                     case.get('table_factor', 'astropy'))
+    if 0.55 in ends:
+        labels.add('table_%s_at_V' % ('starts' if wav[0] == 0.55 else 'ends'))
     check_values(query(other, case['query_unit']), want, qs, ends,
                  case['query_unit'] == 'um' and case['table_wav_unit'] == 'um',
                  'chi x %r, table in %s and %s' % (case['scale'], case['table_wav_unit'], case['table_chi_unit']),
